@@ -79,6 +79,11 @@ func runC11(src sim.Source, o Opts) *Result {
 					p.Method, p.Path = "OPTIONS", "*"
 				}
 			}
+			if p.Host != "" && !strings.ContainsAny(p.Host, ":") && !strings.HasSuffix(p.Host, ".") && src.Intn("nearmisshost", 6) == 0 {
+				oh, _ := world.Instantiate(src, rr.pool[src.Intn("op", len(rr.pool))])
+				p.Host, _ = hostVariants(src, p.Host, oh)
+				res.inc("probes_with_near_miss_host")
+			}
 			// requests whose escaped path differs from the decoded one: routing (and the Allow scan) works on the escaped form
 			rawPath := ""
 			if p.Path != "*" && src.Intn("escaped", 4) == 0 {
